@@ -772,6 +772,33 @@ func runC12(c *core.Ctx) {
 						}
 					}
 				}
+				if !guarded && operand.Referrers() != nil {
+					// the other spelling of the test: len(name) == 0 / > 0
+					for _, r := range *operand.Referrers() {
+						lc, ok := r.(*ssa.Call)
+						if !ok || lc.Referrers() == nil {
+							continue
+						}
+						if bi, isBi := lc.Common().Value.(*ssa.Builtin); !isBi || bi.Name() != "len" {
+							continue
+						}
+						for _, rr := range *lc.Referrers() {
+							cmp, isCmp := rr.(*ssa.BinOp)
+							if !isCmp || cmp.Referrers() == nil {
+								continue
+							}
+							x, z, isZ := core.ZeroEdge(cmp)
+							if !isZ || x != ssa.Value(lc) {
+								continue
+							}
+							for _, r3 := range *cmp.Referrers() {
+								if iff, isIf := r3.(*ssa.If); isIf && core.EdgeDominates(iff.Block(), 1-z, in.Block()) {
+									guarded = true
+								}
+							}
+						}
+					}
+				}
 				if guarded {
 					c.Discharge("ignore.emptyrule", key, in.Pos(), "only a non-empty name becomes a rule")
 				} else {
@@ -820,6 +847,22 @@ func runC12(c *core.Ctx) {
 			sets[set] = v
 		}
 	}
+	for _, b := range isEnable.Blocks {
+		for _, in := range b.Instrs {
+			lk, ok := in.(*ssa.Lookup)
+			if !ok || lk.CommaOk || lk.Index != ssa.Value(ruleParam) {
+				continue
+			}
+			if rs := ignoreSetsRead(lk); len(rs) > 1 {
+				// a lookup through a literal collection of sets reads every one of them
+				for _, set := range rs {
+					v := sets[set]
+					v[1]++
+					sets[set] = v
+				}
+			}
+		}
+	}
 	for _, set := range []string{"ignoreNextLine", "ignoreThisLine", "ignoreRange"} {
 		v := sets[set]
 		if v[0] >= 1 && v[1] >= 1 {
@@ -835,6 +878,80 @@ func runC12(c *core.Ctx) {
 	checkRuleSetBodies(c, ign, unign)
 	c.Floor("ignore.filter", 5)
 	_ = lfuncs
+}
+
+// ignoreSetsRead: the ignore sets whose rules map a lookup may read: the set named in the access path, or - when the
+// sets are put into a literal collection and walked in a loop (`for _, s := range []ignoredRules{i.ignoreNextLine, …}`) -
+// every set stored in that collection.
+func ignoreSetsRead(lk *ssa.Lookup) []string {
+	setOf := func(v ssa.Value) string {
+		// &i.ignoreX or a copy *(&i.ignoreX)
+		if ld, ok := v.(*ssa.UnOp); ok && ld.Op == token.MUL {
+			v = ld.X
+		}
+		if fa, ok := v.(*ssa.FieldAddr); ok && core.FieldOf(fa) != nil && strings.HasPrefix(core.FieldOf(fa).Name(), "ignore") && strings.HasSuffix(core.FieldOwner(fa), "/linter.ignore") {
+			return core.FieldOf(fa).Name()
+		}
+		return ""
+	}
+	var owner ssa.Value // the ignoredRules value (or pointer) whose rules field is read
+	switch t := lk.X.(type) {
+	case *ssa.UnOp:
+		if fa, ok := t.X.(*ssa.FieldAddr); ok && core.FieldOf(fa) != nil && core.FieldOf(fa).Name() == "rules" {
+			owner = fa.X
+		}
+	case *ssa.Field:
+		if f := core.FieldOf(t); f != nil && f.Name() == "rules" {
+			owner = t.X
+		}
+	}
+	if owner == nil {
+		return nil
+	}
+	if s := setOf(owner); s != "" {
+		return []string{s}
+	}
+	// the loop variable: a local cell the element is copied into
+	if al, ok := owner.(*ssa.Alloc); ok && al.Referrers() != nil {
+		for _, r := range *al.Referrers() {
+			if st, isSt := r.(*ssa.Store); isSt && st.Addr == ssa.Value(al) {
+				owner = st.Val
+			}
+		}
+	}
+	// an element of a literal collection
+	if ld, ok := owner.(*ssa.UnOp); ok && ld.Op == token.MUL {
+		owner = ld.X
+	}
+	ia, ok := owner.(*ssa.IndexAddr)
+	if !ok {
+		return nil
+	}
+	sl, ok := ia.X.(*ssa.Slice)
+	if !ok {
+		return nil
+	}
+	al, ok := sl.X.(*ssa.Alloc)
+	if !ok || al.Referrers() == nil {
+		return nil
+	}
+	var out []string
+	for _, r := range *al.Referrers() {
+		ea, isIA := r.(*ssa.IndexAddr)
+		if !isIA || ea.Referrers() == nil {
+			continue
+		}
+		for _, r2 := range *ea.Referrers() {
+			if st, isSt := r2.(*ssa.Store); isSt && st.Addr == ssa.Value(ea) {
+				if s := setOf(st.Val); s != "" {
+					out = append(out, s)
+				} else {
+					return nil
+				}
+			}
+		}
+	}
+	return out
 }
 
 // checkOrTable: IsEnable is a boolean function of six reads (.all and .rules[rule] of the three sets). Its SSA is
@@ -877,6 +994,7 @@ func checkOrTable(c *core.Ctx, fn *ssa.Function, ruleParam *ssa.Parameter) {
 		return si*2 + kind, true
 	}
 	bad := map[string]token.Pos{}
+	loops := naturalLoops(fn)
 	for row := 0; row < 64; row++ {
 		want := row != 0
 		phiEnv := map[*ssa.Phi]int{}
@@ -884,6 +1002,18 @@ func checkOrTable(c *core.Ctx, fn *ssa.Function, ruleParam *ssa.Parameter) {
 		eval = func(v ssa.Value) (bool, bool) {
 			if i, ok := leaf(v); ok {
 				return row&(1<<i) != 0, true
+			}
+			// a lookup in a loop over a literal collection of sets: the loop as a whole reads each of them
+			if lk, isLk := v.(*ssa.Lookup); isLk && !lk.CommaOk && lk.Index == ssa.Value(ruleParam) {
+				if rs := ignoreSetsRead(lk); len(rs) > 1 {
+					any := false
+					for _, set := range rs {
+						if si, known := setIdx[set]; known && row&(1<<(si*2+1)) != 0 {
+							any = true
+						}
+					}
+					return any, true
+				}
 			}
 			switch t := v.(type) {
 			case *ssa.Const:
@@ -923,9 +1053,21 @@ func checkOrTable(c *core.Ctx, fn *ssa.Function, ruleParam *ssa.Parameter) {
 		var walk func(b *ssa.BasicBlock, from int)
 		walk = func(b *ssa.BasicBlock, from int) {
 			steps++
-			if steps > 5000 || onPath[b] {
-				if steps > 5000 {
-					bad["IsEnable|table|undecided"] = fn.Pos()
+			if steps > 5000 {
+				bad["IsEnable|table|undecided"] = fn.Pos()
+				return
+			}
+			if onPath[b] {
+				// round the loop once (its reads stand for all elements): go on behind it
+				for _, l := range loops {
+					if l.header != b {
+						continue
+					}
+					for _, sc := range b.Succs {
+						if !l.body[sc] {
+							walk(sc, -1)
+						}
+					}
 				}
 				return
 			}
@@ -967,6 +1109,21 @@ func checkOrTable(c *core.Ctx, fn *ssa.Function, ruleParam *ssa.Parameter) {
 			case *ssa.If:
 				v, ok := eval(t.Cond)
 				if !ok {
+					// the control test of a loop (over a literal, non-empty collection): first time in, out on the way back
+					isHeader := false
+					for _, l := range loops {
+						if l.header == b {
+							isHeader = true
+							for _, sc := range b.Succs {
+								if l.body[sc] {
+									walk(sc, predIdx(sc))
+								}
+							}
+						}
+					}
+					if isHeader {
+						return
+					}
 					walk(b.Succs[0], predIdx(b.Succs[0]))
 					walk(b.Succs[1], predIdx(b.Succs[1]))
 				} else if v {
